@@ -15,13 +15,14 @@ op:
   ["post_port", {id, type, min?, max?, integer?, step?, choices?}] | ["patch_port", id, {attr: value}] | ["patch_value", id, value]
   | ["delete_port", id] | ["patch_device", {attr: value}] | ["put_slaves", [entry, ...]] | ["patch_slave", name, {...}]
   | ["post_peripheral", {...}]
-  | ["delete_peripheral", id]
+  | ["delete_peripheral", id] | ["patch_sequence", id, {values, delays, repeat}]   (job["linger_ms"]: real time to wait after the restore)
 mutation (applied to the GET document before PUT):
   ["set", index, key, value] | ["del", index, key] | ["append", entry] | ["insert", index, entry] | ["drop", index]
   | ["replace", whole_document]
 
 result:
   {"src": docs, "tgt": docs, "put": {name: outcome}, "flags": {name: [updating_enabled, events_enabled]}, "after": docs,
+   "behaviour": {name: [a polling pass ran, a triggered event reached a handler]} (observed after each PUT),
    "sent": docs actually PUT, "ops": {"source": [outcome...], "target": [...]}, "transforms": [[text, role, in, out], ...],
    "clean": [...problems found by the emptiness check...]}
 docs = {"ports": [...], "device": {...}, "devices": [...], "peripherals": [...]}
@@ -146,6 +147,31 @@ class Hub:
                 return True
 
         self.MemDriver = MemDriver
+        # behavioural observation of the two switches: a registered (synchronous) event handler sees an event only while event
+        # delivery is on; main.update() reaches handle_value_changes only while polling is on
+        from qtoggleserver.core.events import base as ev_base
+
+        class Recorder(ev_base.Handler):
+            FIRE_AND_FORGET = False
+
+            def __init__(self):
+                super().__init__('c20-recorder')
+                self.seen = 0
+
+            async def handle_event(self, event):
+                self.seen += 1
+
+        self.recorder = Recorder()
+        core_events.register_handler(self.recorder)
+        self.passes = 0
+        orig_hvc = core_main.handle_value_changes
+
+        async def counting_hvc(*a, **kw):
+            hub.passes += 1
+            return await orig_hvc(*a, **kw)
+
+        core_main.handle_value_changes = counting_hvc
+
         self.hw_classes = {'bool_rw': HwBoolRW, 'num_rw': HwNumRW, 'num_ro': HwNumRO, 'custom': HwCustom}
         self.transform_log = []
 
@@ -239,6 +265,9 @@ class Hub:
         self.slaves_devices._slaves_by_name.clear()
         for port in list(cp.get_all()):
             try:
+                if port._sequence:
+                    await port._sequence.cancel()
+                    port._sequence = None
                 await port.remove()
             except (Exception, asyncio.CancelledError):  # noqa: BLE001
                 pass
@@ -266,6 +295,15 @@ class Hub:
 
     def flags(self):
         return [bool(self.core_main._updating_enabled), bool(self.ev_handlers._enabled)]
+
+    async def behaviour(self):
+        """[a polling pass runs, a triggered event reaches a handler] - observed, not read from the flags"""
+        before = self.passes
+        await self.core_main.update()
+        polled = self.passes > before
+        seen = self.recorder.seen
+        await self.core_events.trigger_full_update()
+        return [polled, self.recorder.seen > seen]
 
     async def call(self, func, *args):
         try:
@@ -311,6 +349,8 @@ class Hub:
                 r = await self.call(self.api_device.patch_device, copy.deepcopy(op[1]))
             elif kind == 'put_slaves':
                 r = await self.call(self.api_slaves.put_slave_devices, copy.deepcopy(op[1]))
+            elif kind == 'patch_sequence':   # ["patch_sequence", id, {"values": [...], "delays": [ms...], "repeat": n}]
+                r = await self.call(self.api_ports.patch_port_sequence, op[1], copy.deepcopy(op[2]))
             elif kind == 'patch_slave':      # ["patch_slave", name, {poll_interval | listen_enabled | enabled}]
                 r = await self.call(self.api_slaves.patch_slave_device, op[1], copy.deepcopy(op[2]))
             elif kind == 'post_peripheral':
@@ -438,7 +478,7 @@ async def run_job(hub, job):
     for name, m in job.get('mutate') or []:
         sent[name] = mutate(sent[name], m)
     res['sent'] = {}
-    res['put'], res['flags'], res['mid'] = {}, {}, {}
+    res['put'], res['flags'], res['mid'], res['behaviour'] = {}, {}, {}, {}
     for name in job.get('restore', ['device', 'peripherals', 'devices', 'ports']):
         if name == 'ports':
             res['mid'] = await hub.docs()     # the hub PUT /ports acts on (peripherals and slaves already restored)
@@ -447,6 +487,11 @@ async def run_job(hub, job):
         res['sent'][name] = copy.deepcopy(doc)
         res['put'][name] = await hub.restore(name, doc)
         res['flags'][name] = hub.flags()
+        res['behaviour'][name] = await hub.behaviour()
+        if name != job.get('restore', ['device', 'peripherals', 'devices', 'ports'])[-1] and res['flags'][name] != [True, True]:
+            # a later PUT would hide it (put_ports switches both on again); the observation above is what counts
+            hub.core_main.enable_updating()
+            hub.core_events.enable()
     # what the hub holds the moment the restore returns (before the next polling passes)
     res['immediately'] = await hub.docs()
     if not res['mid']:
@@ -455,6 +500,10 @@ async def run_job(hub, job):
     hub.core_main.enable_updating()          # a hub left with polling disabled would otherwise never settle; flags are recorded above
     hub.core_events.enable()
     res['settled'] = await hub.settle()
+    if job.get('linger_ms'):
+        # a sequence the target was playing takes its next steps in real time: let them happen (or not) before looking
+        await asyncio.sleep(job['linger_ms'] / 1000.0)
+        res['settled'] = await hub.settle()
     res['after'] = await hub.docs()
     res['transforms'] = _jsonable(hub.transform_log)
     res['parses'] = _jsonable(hub.parse_table([res['src']['ports'], res['tgt']['ports'], res['sent'].get('ports'),
